@@ -97,8 +97,8 @@ def batches(tier):
     sigs = kw.signatures(2, 2)
     n = len(sigs)
     b = [{'name': 'keys-enum', 'n': n * n, 'profile': 'enum', 'nsig': n},
-         {'name': 'concurrent-nofault', 'n': 3000 if tier == 'quick' else 40000, 'profile': 'c14-nofault'},
-         {'name': 'concurrent-evict', 'n': 9000 if tier == 'quick' else 120000, 'profile': 'c14'}]
+         {'name': 'concurrent-nofault', 'n': 3000 if tier == 'quick' else 120000, 'profile': 'c14-nofault'},
+         {'name': 'concurrent-evict', 'n': 9000 if tier == 'quick' else 400000, 'profile': 'c14'}]
     if tier == 'thorough':
         b.append({'name': 'keys-sampled-large', 'n': 400000, 'profile': 'sample'})
     return b
